@@ -495,3 +495,9 @@ func dirtySpecials() []Dec {
 	}
 	return out
 }
+
+// NonTrivial: the call reached the arithmetic (not a NaN/infinity prologue) and either rounded, raised a
+// condition, or returned a non-zero finite value.
+func (e AEv) NonTrivial() bool {
+	return e.Panic == "" && e.X.F == 0 && (e.Res.F == 0 || e.Res.F == 1) && (e.Fl != 0 || len(e.Res.C) > 0)
+}
